@@ -270,8 +270,9 @@ double PDF_Maxwell_Boltzmann(double x, double a)
 	}
 	else if(x < 0)
 		return 0.0;
-	else
-		return sqrt(2.0 / M_PI) * x * x / a / a / a * exp(-x * x / 2.0 / a / a);
+	// Work with the dimensionless t = x/a: x*x and a*a*a over- or underflow for scales beyond 1e+-103 / 1e+-154.
+	double t = x / a;
+	return sqrt(2.0 / M_PI) * t * t / a * exp(-t * t / 2.0);
 }
 
 double CDF_Maxwell_Boltzmann(double x, double a)
@@ -292,7 +293,7 @@ double CDF_Maxwell_Boltzmann(double x, double a)
 		double t2 = t * t;
 		return sqrt(2.0 / M_PI) * t * t2 * (1.0 / 3.0 + t2 * (-1.0 / 10.0 + t2 * (1.0 / 56.0 + t2 * (-1.0 / 432.0 + t2 * (1.0 / 4224.0 + t2 * (-1.0 / 49920.0))))));
 	}
-	return erf(x / sqrt(2.0) / a) - sqrt(2.0 / M_PI) * x / a * exp(-x * x / 2.0 / a / a);
+	return erf(t / sqrt(2.0)) - sqrt(2.0 / M_PI) * t * exp(-t * t / 2.0);
 }
 
 // 2. Likelihoods
